@@ -50,6 +50,10 @@ def gen_cfg(w, r, pure=False):
     elif meth in ("update", "ior", "isub", "iand", "ixor", "or", "and", "sub", "xor", "eq", "le", "isdisjoint"):
         es = [e for e in (gen_edge(w, r, ir) for _ in range(r.randrange(0, 4))) if e is not None]
         op["args"] = [es]
+        if r.random() < w.cfg.get("p_cfg_object_arg", 0.12):
+            # a CFG object as the argument: another IR's, or this very one
+            op["cfg_arg"] = ir if r.random() < 0.4 else pick(r, m.by_kind("ir"))
+            op["args"] = [[]]
         if meth == "update":
             op["style"] = r.choice(["list", "iter", "set"])
         if meth in ("or", "and", "sub", "xor", "eq", "le") and r.random() < 0.4:
